@@ -4,6 +4,8 @@ LEVEL = "proof"
 FUNCTIONS = [
     {"q": "uxarray.grid.geometry._get_latlonbox_width", "standin": {}},
     {"q": "uxarray.grid.geometry._insert_pt_in_latlonbox", "standin": {}},
+    "uxarray.grid.arcs.extreme_gca_latitude@max",
+    "uxarray.grid.arcs.extreme_gca_latitude@min",
 ]
 STANDINS = ["bounds"]
 ASSUMPTIONS = [
@@ -11,5 +13,5 @@ ASSUMPTIONS = [
 ]
 EXPLANATION = ("contracts on the box primitives and the per-edge loops of _populate_face_latlon_bound; "
                "_pole_point_inside_polygon and the padding gymnastics of _get_*_face_edge_nodes are bounded stand-ins")
-LEVEL_TEXT = '_get_latlonbox_width and _insert_pt_in_latlonbox proved over the reals (enclosure of point and old box, periodic longitude, narrower extension chosen, pole markers); the per-edge loops, arc extremes and pole predicate are bounded (dense arc sampling on generated faces)'
-LEVEL_NOTE = 'A-REAL, fmod axioms; extreme_gca_latitude and _pole_point_inside_polygon not under contract'
+LEVEL_TEXT = '_get_latlonbox_width and _insert_pt_in_latlonbox proved over the reals (enclosure of point and old box, periodic longitude, narrower extension chosen, pole markers); extreme_gca_latitude proved (real arithmetic, unit end points, staged polynomial lemmas in clean contexts): the interior candidate the function evaluates IS the stationary point of the latitude along the arc (d/dt [p_z/|p|] = 0 at p = (1-d) n1 + d n2), it is never the origin, and the result is never on the wrong side of either end point; that the stationary point is the extremum, the per-edge loops and the pole predicate are bounded (dense arc sampling on generated faces)'
+LEVEL_NOTE = 'A-REAL, fmod axioms; _pole_point_inside_polygon not under contract; lemma obligations are generalised to pure polynomial arithmetic (every non-polynomial subterm becomes a variable) and proved from explicitly listed premises, each of which is itself an obligation'
